@@ -40,6 +40,7 @@ DEVIATIONS = (("DevChargeSign", "CountRule"), ("DevSpinIgnored", "CountRule"), (
               ("DevToward", "PlacedRight"), ("DevNaN", "PlacedRight"), ("DevLength", "PlacedRight"),
               ("DevOrderZero", "Idempotent"), ("DevTwice", "BondedOnceToCentre"), ("DevShift", "OnlyHydrogensAdded"))
 DROP = ("out", "n", "hs", "cls", "nb", "bv2")
+SHARE_KINDS = ("Promolecule", "Connectivity", "Structure")
 
 
 def mc_cfg(envs, dev="DevNone", only=None, edit=False):
@@ -83,6 +84,8 @@ def known_id(sig):
 def describe(tr, l, want=None):
     """Human-readable account of a rejected call: what appeared (measured) and, from TLC, where HAdd wants hydrogens."""
     e = tr["ev"][l - 1] if l and l <= len(tr["ev"]) else {}
+    if e.get("ev") == "share":
+        return f"handing atoms {e['sub']} to a {e['kind']} raised {e['out']}"
     if e.get("ev") == "query":
         return (f"accessors of atom {e['i']} answered neighbours={sorted(e['nb'])} n_bonds={e['n']} valence={e['bv2'] / 2} "
                 f"(out={e['out']}): not what the current bonds say")
@@ -95,6 +98,11 @@ def describe(tr, l, want=None):
     for c in want or []:
         wanted[c] = wanted.get(c, 0) + 1
     bits = [f"out={e['out']}, {len(e['atoms']) - len(pre['atoms'])} atoms appeared"]
+    nonh = [h["atom"]["el"] for h in e["newh"] if h["atom"]["el"] != "H"]
+    if nonh:
+        bits.append(f"non-hydrogen atoms among them: {nonh[:6]}")
+    if not e.get("aligned", True):
+        bits.append("coordinate rows and atoms no longer aligned")
     for c in sorted(set(per) | set(wanted))[:5]:
         el = pre["atoms"][c - 1]["el"] if 0 < c <= len(pre["atoms"]) else "?"
         nn = sum(1 for b in pre["bonds"] if c in (b["a"], b["b"]))
@@ -194,21 +202,39 @@ def make_history(seed, idx, tier):
         if not sane(pre) or len(pre["atoms"]) < 2:
             return None
         evs = [H.mol_event(pre, H.hints_of(m))]
+        keepalive = []
+
+        def maybe_share(p):
+            """with probability p the molecule's atom objects (all / the heavy ones / a random subset) are also put
+            into another non-copying container"""
+            if rnd.random() >= p:
+                return False
+            n = len(m.atoms)
+            mode = rnd.choice(["all", "heavy", "some"])
+            sub = list(range(1, n + 1))
+            if mode == "heavy":
+                sub = [i for i, a in enumerate(m.atoms, start=1) if a.element.symbol != "H"] or sub
+            elif mode == "some":
+                sub = sorted(rnd.sample(sub, rnd.randint(1, n)))
+            evs.append(H.share(m, sub, rnd.choice(SHARE_KINDS), rnd.random() < 0.5, keepalive))
+            return True
         for i in rnd.sample(range(1, len(pre["atoms"]) + 1), min(len(pre["atoms"]), rnd.randint(1, 3))):
             evs.append(H.query(m, i))
         edits = []
+        shared_first = maybe_share(0.25)
         try:
-            for _ in range(rnd.randint(1, 3)):
+            for _ in range(rnd.randint(0 if shared_first else 1, 3)):
                 e = G.random_edit(m, rnd)
                 if e:
                     edits.append(e)
         except Exception:                                   # noqa: BLE001
             return None
-        if not edits:
+        if not edits and not shared_first:
             return None
 
         def calls(pre):
             evs.append(dict(H.mol_event(pre, H.hints_of(m)), edits=list(edits)))
+            maybe_share(0.4)
             for i in rnd.sample(range(1, len(pre["atoms"]) + 1), min(len(pre["atoms"]), rnd.randint(0, 2))):
                 evs.append(H.query(m, i))
             e1, post = H.call(m, pre)
@@ -255,7 +281,7 @@ def history_model(ev):
     kinds = {}
     for e in edges:
         kinds[e["act"]["act"]] = kinds.get(e["act"]["act"], 0) + 1
-    if not all(kinds.get(k) for k in ("build", "query", "rewire", "addh")):     # TLC names these disjuncts "Next" in -coverage
+    if not all(kinds.get(k) for k in ("build", "query", "rewire", "share", "addh")):     # TLC names these disjuncts "Next" in -coverage
         raise tlc.MachineryError(f"vacuity guard: history model took {kinds}")
     return edges
 
@@ -325,12 +351,14 @@ def run(tier, seed, replay_path):
     t0 = time.time()
     cfg = mc_cfg(envs)
     cfg["action_constraints"] = ("Emit",)
-    with ThreadPoolExecutor(7) as ex:
+    with ThreadPoolExecutor(8) as ex:
         fh = ex.submit(history_model, ev)
         fd = [ex.submit(expect_violation, "MCHAdd", mc_cfg("EnvsS", d, only=c), (c,), tag="c16dev", workers=1)
               for d, c in DEVIATIONS]
         fd.append(ex.submit(expect_violation, "MCHAdd", mc_cfg("EnvsH", "DevStale", only="CountRule", edit=True), ("CountRule",),
                             tag="c16dev", workers=1))
+        fd.append(ex.submit(expect_violation, "MCHAdd", mc_cfg("EnvsH", "DevReadopt", only="OnlyHydrogensAdded", edit=True),
+                            ("OnlyHydrogensAdded",), tag="c16dev", workers=1))
         r = model_check(ev, "MCHAdd", cfg, role=f"HAdd clauses over the case table {envs} (+ emitted edges)", tag="c16mc",
                         workers=1, require_actions=("Build", "AddH"), timeout=1500)
         for f in fd:
@@ -341,7 +369,8 @@ def run(tier, seed, replay_path):
         raise tlc.MachineryError("MCHAdd emitted no case table")
     rep.note(f"model checked: {r.distinct} states, {len(edges)} edges; history model {len(hedges)} edges; "
              f"{len(fd)} deviations caught; {time.time() - t0:.1f}s")
-    ev.set(deviations_caught=[f"{d} -> {c}" for d, c in DEVIATIONS] + ["DevStale (history model) -> CountRule"])
+    ev.set(deviations_caught=[f"{d} -> {c}" for d, c in DEVIATIONS] + ["DevStale (history model) -> CountRule",
+                                                                            "DevReadopt (history model) -> OnlyHydrogensAdded"])
     # H/A: histories enumerated by TLC
     t0 = time.time()
     hstats, hviol, hsamples = history_replay(tier, seed, hedges)
